@@ -180,7 +180,10 @@ Fixpoint copy_edges (nm : nmap) (res : list edge) (g : graph) (nx : nat) (em : e
     end
   end.
 
-(** returns the host graph after the call (also when it raised), the counter, and the maps *)
+(** returns the host graph after the call (also when it raised), the counter, and the maps.
+    Since /repo 0be4bef the code reads [replacement.nodes()], [.edges()], [.ext] into lists BEFORE
+    [graph.remove_edge(edge)] and iterates over those lists: [r] below is that snapshot, a value,
+    whether or not the replacement object is the host object (see [replace_edge_self_model]). *)
 Definition replace_edge_model (g : graph) (nx : nat) (e : edge) (r : graph)
   : graph * nat * result (nmap * emap) :=
   if negb (list_eqb Nat.eqb (l_type (e_label e)) (gtype r)) then (g, nx, Err ValueErr)
@@ -195,23 +198,29 @@ Definition replace_edge_model (g : graph) (nx : nat) (e : edge) (r : graph)
     end.
 
 (** * replace_edge(g, e, g): the replacement IS the host object (aliasing).
-    Same statements, one heap object: [graph.remove_edge(edge)] also removes the edge from the
+    As the code is now (0be4bef): the snapshot taken before the first mutation is the host as the
+    caller passed it, so the call is the functional model with [r := g]. *)
+Definition replace_edge_self_model (g : graph) (nx : nat) (e : edge) : graph * nat * result (nmap * emap) :=
+  replace_edge_model g nx e g.
+
+(** ** the OLD code (before 0be4bef; finding c15_replacement_is_host), kept as the record of the
+    finding.  Same statements without the snapshot, one heap object: [graph.remove_edge(edge)] also removes the edge from the
     replacement; [replacement.ext] is the host's; the two [for] loops iterate over live views of
     the dicts that their bodies grow ([graph.add_node] / [graph.add_edge]), so the [next()] that
     follows the first insertion raises [RuntimeError: dictionary changed size during iteration]
     (CPython tests the size on every [next()], also on the one that would end the loop).
     Nodes already in [node_map] are skipped without insertion, so the iteration goes on. *)
-Fixpoint alias_copy_nodes (g : graph) (nx : nat) (nm : nmap) (rnodes : list node)
+Fixpoint alias_copy_nodes_old (g : graph) (nx : nat) (nm : nmap) (rnodes : list node)
   : graph * nat * nmap * option err :=
   match rnodes with
   | [] => (g, nx, nm, None)
   | rn :: rnodes =>
-    if amem node_eqb nm rn then alias_copy_nodes g nx nm rnodes
+    if amem node_eqb nm rn then alias_copy_nodes_old g nx nm rnodes
     else let gn := mkNode (Fresh nx) (n_label rn) in
          (push_node g gn, S nx, aset node_eqb nm rn gn, Some RuntimeErr)
   end.
 
-Definition alias_copy_edges (nm : nmap) (g : graph) (nx : nat) : graph * nat * result emap :=
+Definition alias_copy_edges_old (nm : nmap) (g : graph) (nx : nat) : graph * nat * result emap :=
   match g_edges g with
   | [] => (g, nx, Ok [])
   | re :: _ =>
@@ -228,16 +237,16 @@ Definition alias_copy_edges (nm : nmap) (g : graph) (nx : nat) : graph * nat * r
     end
   end.
 
-Definition replace_edge_alias_model (g : graph) (nx : nat) (e : edge) : graph * nat * result (nmap * emap) :=
+Definition replace_edge_alias_model_old (g : graph) (nx : nat) (e : edge) : graph * nat * result (nmap * emap) :=
   if negb (list_eqb Nat.eqb (l_type (e_label e)) (gtype g)) then (g, nx, Err ValueErr)
   else if negb (has_edge_id g (e_id e)) then (g, nx, Err ValueErr)
   else
     let g1 := remove_edge_id g (e_id e) in
     let nm0 := ext_map (g_ext g1) (e_att e) in
-    match alias_copy_nodes g1 nx nm0 (g_nodes g1) with
+    match alias_copy_nodes_old g1 nx nm0 (g_nodes g1) with
     | (g2, nx2, nm, Some k) => (g2, nx2, Err k)
     | (g2, nx2, nm, None) =>
-      match alias_copy_edges nm g2 nx2 with
+      match alias_copy_edges_old nm g2 nx2 with
       | (g3, nx3, Ok em) => (g3, nx3, Ok (nm, em))
       | (g3, nx3, Err k) => (g3, nx3, Err k)
       end
